@@ -154,7 +154,8 @@ func TestC06(t *testing.T) {
 		for n := rapid.IntRange(2, 80).Draw(t, "n"); n > 0; n-- {
 			switch k := rapid.IntRange(0, 9).Draw(t, "op"); {
 			case k <= 3:
-				c.Ops = append(c.Ops, aggh.XOp{Kind: "rec", Flow: rapid.IntRange(0, 3).Draw(t, "flow"), Side: rapid.SampledFrom([]string{"S", "S", "D"}).Draw(t, "side")})
+				c.Ops = append(c.Ops, aggh.XOp{Kind: "rec", Flow: rapid.IntRange(0, 3).Draw(t, "flow"), Side: rapid.SampledFrom([]string{"S", "S", "S", "D", "D", "N", "B"}).Draw(t, "side"),
+					EndMode: rapid.SampledFrom([]string{"", "", "", "older", "equal"}).Draw(t, "end_mode")})
 			case k <= 6:
 				c.Ops = append(c.Ops, aggh.XOp{Kind: "advance", Hours: rapid.SampledFrom([]int{1, 1, 2, 3, 4, 6, 11, 30}).Draw(t, "h")})
 			default:
